@@ -1659,9 +1659,15 @@ fintStmt(DataObj retDataObj)
 		fintGetInt(fmt, n);
 		fintDEBUG(dbOut, "(Label %d)\n", n);
 		break;
-	case FOAM_Nil:
 	case FOAM_Lex: /* we get things like that when we -q0 (deadvar
 			is effective in killing them */
+	case FOAM_Loc:
+	case FOAM_Par:
+	case FOAM_Glo:
+		ip = stmtPos;
+		(void)fintEval(&expr); /* consume the reference */
+		break;
+	case FOAM_Nil:
 	case FOAM_NOp:
 		break;
 	default:
